@@ -185,4 +185,4 @@ def run(ctx):
     if ctx.tier == 'quick':
         core.run_sharded(ctx, __name__, 'shard', 1, (1200,))
     else:
-        core.run_sharded(ctx, __name__, 'shard', getattr(ctx, 'shards_override', None) or 16, (6000,))
+        core.run_sharded(ctx, __name__, 'shard', getattr(ctx, 'shards_override', None) or 16, (12000,))
